@@ -33,9 +33,10 @@ Property clause → theorem  (model: `Comdex/Model/Liquidation.lean`, both gener
       `C09.flagged_borrow_is_backed`, `C09.failing_step_leaves_no_writes`; generation-1 borrow sell-off:
       `C09.v1_selloff_records` and — FALSE for the transfers — `C09.v1_selloff_can_exceed_collateral_counterexample` (D33).
 * generation-1 borrows end to end (sweep `LiquidateBorrows`, message `MsgLiquidateBorrow`, sell-off, auction start)
-    → `C09.v1_borrow_safe_never_seized` (sweep: safe or kill-switched borrows keep their record; message: w.r.t. its OWN test; the two
-      tests coincide outside e-mode), FALSE for e-mode pairs under the message: `C09.v1_msg_borrow_ignores_emode_counterexample` (D38,
-      replayed on the real code), `C09.v1_borrow_seizure_effect` (exactly one locked vault and one lend auction, amounts, custody).
+    → `C09.v1_borrow_safe_never_seized` (ONE test for both paths: a borrow safe under the applicable, e-mode aware threshold, or
+      kill-switched, is seized by neither the sweep nor anybody's message — the message since fix f18ae51, finding D38; what the
+      unrepaired message did: `C09.v1_msg_borrow_ignored_emode_before_fix_counterexample`),
+      `C09.v1_borrow_seizure_effect` (exactly one locked vault and one lend auction, amounts, custody).
 * "opens exactly one auction for it", for every auction type the whitelisting can select, and nothing seized when none is
     → `C09.auction_type_follows_whitelisting`; the messages that seize nobody: `C09.external_liquidation_touches_no_position`;
       `MsgLiquidateInternalKeeper` = step + keeper mark: `C09.keeper_message_is_step_plus_mark`.
@@ -571,21 +572,16 @@ theorem v1_selloff_can_exceed_collateral_counterexample :
 
 /-! ## generation 1 borrows end to end (`LiquidateBorrows` sweep, `MsgLiquidateBorrow`) -/
 
-/-- **Generation-1 borrows: safe ⇒ never seized by the sweep; the message applies its own (e-mode blind) test.**
-(1) after any generation-1 block hook an unflagged borrow that fails the sweep's test `borrowUnsafe` (ratio after the accrual >
-the applicable threshold, e-mode aware, all three bridge cases) or whose app has the kill switch on still has an identical record;
-(2) after any `MsgLiquidateBorrow` the same holds with the MESSAGE's test `borrowUnsafeMsgV1`, and no vault is touched;
-(3) for a pair that is not in e-mode the two tests are the same function — so for those pairs the message is safe too.
-The gap for e-mode pairs is real: next theorem. -/
+/-- **Generation-1 borrows: a borrow that is safe under the applicable threshold is seized by NEITHER the sweep NOR the message.**
+ONE test for both paths (the message since fix f18ae51, finding D38): `borrowUnsafe` = ratio after the accrual > `borrowThreshold`
+(e-mode threshold iff the pair is in e-mode, × the transit asset's threshold for the two cross-pool cases).
+(1) after any generation-1 block hook and (2) after anybody's `MsgLiquidateBorrow` (any id) an unflagged borrow that fails this test,
+or whose app has the kill switch on, still has an identical record (`KeepsB1`); the message touches no vault either. -/
 theorem v1_borrow_safe_never_seized :
     (∀ e batch w w', AppsUnique e → NodupIds w → NodupB w → (blockV1 e batch w).world? = some w' → KeepsB1 e w w') ∧
-    (∀ e id w w', NodupB w → msgLiquidateBorrowV1 e id w = some w' → KeepsBMsg1 e w w' ∧ Removes e w w') ∧
-    (∀ e b, b.emode = false → borrowUnsafeMsgV1 e b = borrowUnsafe e b) := by
-  refine ⟨fun e batch w w' hU hn hb h => (blockV1_keepsB1 e batch w w' hU hn hb h).1,
-          fun e id w w' hb h => let r := msgLiquidateBorrowV1_rel e id w w' hb h; ⟨r.1, r.2.1⟩, ?_⟩
-  intro e b hem
-  unfold borrowUnsafeMsgV1 borrowUnsafe borrowThresholdMsgV1 borrowThreshold Borrow.baseThreshold
-  simp [hem]
+    (∀ e id w w', NodupB w → msgLiquidateBorrowV1 e id w = some w' → KeepsB1 e w w' ∧ Removes e w w') :=
+  ⟨fun e batch w w' hU hn hb h => (blockV1_keepsB1 e batch w w' hU hn hb h).1,
+   fun e id w w' hb h => let r := msgLiquidateBorrowV1_rel e id w w' hb h; ⟨r.1, r.2.1⟩⟩
 
 def emodeEnv : Env :=
   { assets := [{ id := 6, decimals := 1000000, price := some 1000000 }, { id := 7, decimals := 1000000, price := some 1000000 }]
@@ -599,20 +595,22 @@ def emodeWorld : World :=
                   ltv := 750000000000000000, pen := 50000000000000000, epen := 50000000000000000, bon := 50000000000000000 }]
     poolBal := [(6, 1000000000), (9, 1000000000)], auctionBal := [(6, 0)], reserveBal := [(6, 0)], lendBal := [(1, 100000000)] }
 
-/-- **Generation-1 `MsgLiquidateBorrow` seizes a SAFE borrow of an e-mode pair** (msg_server.go:153,170,185 use
-`LiquidationThreshold`; the sweep, liquidate_borrow.go:82-85, uses `ELiquidationThreshold`): ratio 0.82 ≤ e-mode threshold 0.85,
-the block hook leaves the borrow alone (only its offset moves), anybody's message flags it, sells 40 000 000 + bonus units of
-its collateral off and opens an auction. Replayed on the real code by `c09WitnessEmodeMsgV1` (monitor
-`gen1_msg_borrow_ignores_emode`, finding D38). -/
-theorem v1_msg_borrow_ignores_emode_counterexample :
+/-- what the UNREPAIRED code did (before f18ae51, finding D38; a revert is reported by the correspondence run as
+`safe_never_seized` on the witness `c09WitnessEmodeMsgV1`): `MsgLiquidateBorrow` compared with `LiquidationThreshold` whatever the
+pair's e-mode (`borrowThresholdMsgV1BeforeFix`). E-mode pair, normal threshold 0.80, e-mode threshold 0.85, ratio 0.82: the borrow is
+safe (`borrowUnsafe = false`), the block hook leaves it alone (only its offset moves), the PRE-FIX message flagged it, sent
+42 000 000 units of its collateral to the auction account and opened an auction over 40 000 000; the message AS IT IS NOW
+(`msgLiquidateBorrowV1`) succeeds and changes nothing. -/
+theorem v1_msg_borrow_ignored_emode_before_fix_counterexample :
     borrowUnsafe emodeEnv (emodeWorld.borrows.getD 0 default) = false ∧
     (blockV1 emodeEnv 5 emodeWorld).world? = some { emodeWorld with offsets := [(3, 1)] } ∧
-    (∃ w', msgLiquidateBorrowV1 emodeEnv 1 emodeWorld = some w' ∧ w'.borrows.map (·.liquidated) = [true] ∧
-      w'.auctionBal.get 6 = 42000000 ∧ w'.newAuctions.map (·.amount) = [40000000] ∧ w'.newLocked.map (·.orig) = [1]) := by
-  refine ⟨by decide, rfl, _, rfl, by decide, by decide, by decide, by decide⟩
+    (∃ w', msgLiquidateBorrowV1BeforeFix emodeEnv 1 emodeWorld = some w' ∧ w'.borrows.map (·.liquidated) = [true] ∧
+      w'.auctionBal.get 6 = 42000000 ∧ w'.newAuctions.map (·.amount) = [40000000] ∧ w'.newLocked.map (·.orig) = [1]) ∧
+    msgLiquidateBorrowV1 emodeEnv 1 emodeWorld = some emodeWorld := by
+  refine ⟨by decide, rfl, ⟨_, rfl, by decide, by decide, by decide, by decide⟩, rfl⟩
 
 /-- **What a generation-1 borrow seizure does** (sweep body and message alike): a successful step either changes nothing or
-addressed an unflagged borrow `b` with the kill switch off, judged unsafe by the step's own test at ratio `r`, and: the sell-off
+addressed an unflagged borrow `b` with the kill switch off, unsafe under the applicable threshold at ratio `r`, and: the sell-off
 `o = sellOffV1 (b.sellOffIn e)` was computed; the pool held `toAuction + toReserve` of the collateral and `totalDeduction`
 cTokens; exactly `o.toAuction` units went pool → auction account and `o.toReserve` pool → reserve; the borrow is flagged and keeps
 `o.newAmountIn` collateral; the lend position and `TotalLend` shrink by `o.lendReduction` with
@@ -622,14 +620,14 @@ LEND auction id advance by one, the vault auction id does not; exactly one locke
 units, target `trunc(selloff / unit value of the debt asset)`) are appended; the vault side is untouched. -/
 theorem v1_borrow_seizure_effect (e : Env) (sweep : Bool) (id : Nat) (w w' : World) (h : liquidateBorrowV1 e sweep id w = some w') :
     w' = w ∨ ∃ b r i o, w.borrows.find? (·.id == id) = some b ∧ b.liquidated = false ∧ (e.app b.app).kill = false ∧
-      borrowRatio e b = some r ∧ borrowUnsafeV1 e sweep b = true ∧ SeizedV1 e sweep b r w w' i o ∧
+      borrowRatio e b = some r ∧ borrowUnsafe e b = true ∧ SeizedV1 e sweep b r w w' i o ∧
       (0 ≤ b.amountIn → o.newAmountIn + o.lendReduction = b.amountIn ∧ 0 ≤ o.newAmountIn ∧ 0 ≤ o.toAuction ∧ 0 ≤ o.toReserve) := by
   cases liquidateBorrowV1_cases e sweep id w w' h with
   | inl h => exact Or.inl h
   | inr h =>
     obtain ⟨b, r, hf, hl, hk, hr, hgt, hs⟩ := h
     obtain ⟨i, o, S⟩ := seizeBorrowV1_spec e sweep b r w w' hs
-    refine Or.inr ⟨b, r, i, o, hf, hl, hk, hr, borrowUnsafeV1_of e sweep b r hr hgt, S, fun hnn => ?_⟩
+    refine Or.inr ⟨b, r, i, o, hf, hl, hk, hr, borrowUnsafe_of_gt e b r hr hgt, S, fun hnn => ?_⟩
     have hi : i.amountIn = b.amountIn := by
       have := S.hin
       unfold Borrow.sellOffIn at this
@@ -820,10 +818,16 @@ example : vaultPass 1 0 3 (fun v => liquidateVaultV2 witEnv v.id) { witWorld wit
 -- `ratio_test_safe_side_exact` at equality: ratio exactly 1.5
 example : ¬ (Dec.quo (3 * Dec.P) (2 * Dec.P) < 1500000000000000000) := by decide
 
--- `v1_borrow_safe_never_seized` / `v1_borrow_seizure_effect`: the hypotheses hold of the e-mode witness and the message really seizes
-example : AppsUnique emodeEnv ∧ NodupIds emodeWorld ∧ NodupB emodeWorld ∧
-    ∃ w', liquidateBorrowV1 emodeEnv false 1 emodeWorld = some w' ∧ w' ≠ emodeWorld ∧ w'.lendAuctionId = 1 ∧ w'.auctionId = 0 :=
-  ⟨by unfold AppsUnique; decide, by unfold NodupIds; decide, by unfold NodupB; decide, _, rfl, by intro h; have := congrArg World.lockedId h; revert this; decide, by decide, by decide⟩
+-- `v1_borrow_safe_never_seized` / `v1_borrow_seizure_effect`: the hypotheses hold of the e-mode witness; with the e-mode threshold
+-- lowered to 0.81 the same borrow (ratio 0.82) IS unsafe and the message really seizes it (lend-auction id 1, vault-auction id 0)
+def emodeWorldUnsafe : World :=
+  { emodeWorld with borrows := emodeWorld.borrows.map (fun b => { b with elt := 810000000000000000 }) }
+
+example : AppsUnique emodeEnv ∧ NodupIds emodeWorld ∧ NodupB emodeWorld ∧ NodupB emodeWorldUnsafe ∧
+    ∃ w', msgLiquidateBorrowV1 emodeEnv 1 emodeWorldUnsafe = some w' ∧ w'.borrows.map (·.liquidated) = [true] ∧
+      w'.lendAuctionId = 1 ∧ w'.auctionId = 0 :=
+  ⟨by unfold AppsUnique; decide, by unfold NodupIds; decide, by unfold NodupB; decide, by unfold NodupB; decide,
+   _, rfl, by decide, by decide, by decide⟩
 
 -- `auction_type_follows_whitelisting`: English-only whitelisting — the borrow of the leak witness is sold by an English auction
 example : ∃ w', (blockV2 { leakEnv with apps := [{ id := 3, wl2 := true, dutch2 := false, english2 := true }] } 5 leakWorld).world? = some w' ∧
